@@ -157,7 +157,9 @@ def biased_doc(rng, size, samebare=False):
     for t in doc.tables:
         if t.alias is None and rng.random() < 0.4:
             t.alias = f'al{rng.randrange(10**6)}_'
-    if len(doc.enums) >= 2 and doc.enums[0].schema != doc.enums[1].schema and rng.random() < 0.7:
+    if len(doc.enums) >= 2 and '.' in doc.enums[0].name:
+        pass        # a dotted enum name is only expressible with an explicit schema: not copied to another enum
+    elif len(doc.enums) >= 2 and doc.enums[0].schema != doc.enums[1].schema and rng.random() < 0.7:
         doc.enums[1].name = doc.enums[0].name
     elif len(doc.enums) >= 2 and rng.random() < 0.5:
         doc.enums[1].schema = 'sx_' + doc.enums[1].schema
